@@ -98,7 +98,7 @@ def custom(tier, seed):
         qs = []
         for sh in shapes:
             n, k = len(sh.groups), len(sh.reads())
-            timeout = 120 if tier == 'quick' else 400
+            timeout = (120 if tier == 'quick' else 400) * (3 if sh.name.startswith('nested_loops') else 1)
             qs.append(Query(sh.name, src(sh), 'check', 'main', timeout, per_path=30, meta={'shape': sh.name}, label='S'))
         for sh in shapes[:3]:
             qs.append(Query(sh.name + '__twin', src(sh), 'check_twin', 'twin', 60, meta={'shape': sh.name}))
